@@ -973,18 +973,37 @@ theorem memBD_iff (x : BrickDomain) (s : Str) : memBD x s = true ↔ x.lang s :=
   | top => simp [memBD, BrickDomain.lang]
   | val b => exact memBrick_iff b s
 
-theorem memList_iff (l : List BrickDomain) (s : Str) : memList l s = true ↔ langList l s := by
-  induction l generalizing s with
-  | nil => simp [memList, langList]
-  | cons x xs ih =>
-    simp only [memList, langList, List.any_eq_true, List.mem_range, Bool.and_eq_true]
+theorem mem_remsAfter (x : BrickDomain) (s r : Str) :
+    r ∈ remsAfter x s ↔ ∃ u, s = u ++ r ∧ x.lang u := by
+  simp only [remsAfter, List.mem_filterMap, List.mem_range]
+  constructor
+  · rintro ⟨i, _, h⟩
+    split at h
+    · rename_i hm
+      cases h
+      exact ⟨s.take i, (List.take_append_drop i s).symm, (memBD_iff _ _).mp hm⟩
+    · cases h
+  · rintro ⟨u, rfl, hu⟩
+    refine ⟨u.length, by simp; omega, ?_⟩
+    have : memBD x u = true := (memBD_iff _ _).mpr hu
+    simp [this]
+
+theorem memRems_iff (l : List BrickDomain) (rems : List Str) :
+    memRems l rems = true ↔ ∃ r ∈ rems, langList l r := by
+  induction l generalizing rems with
+  | nil =>
+    simp only [memRems, List.any_eq_true, langList]
     constructor
-    · rintro ⟨i, _, h1, h2⟩
-      exact ⟨s.take i, s.drop i, (List.take_append_drop i s).symm, (memBD_iff _ _).mp h1, (ih _).mp h2⟩
-    · rintro ⟨u, v, rfl, hu, hv⟩
-      refine ⟨u.length, by simp; omega, ?_, ?_⟩
-      · simpa using (memBD_iff _ _).mpr hu
-      · simpa using (ih _).mpr hv
+    · rintro ⟨r, hr, h⟩; exact ⟨r, hr, by simpa using h⟩
+    · rintro ⟨r, hr, rfl⟩; exact ⟨[], hr, rfl⟩
+  | cons x xs ih =>
+    simp only [memRems, ih, mem_canon, List.mem_flatMap, mem_remsAfter, langList]
+    constructor
+    · rintro ⟨r', ⟨r, hr, u, rfl, hu⟩, h⟩; exact ⟨_, hr, u, r', rfl, hu, h⟩
+    · rintro ⟨r, hr, u, v, rfl, hu, hv⟩; exact ⟨v, ⟨_, hr, u, rfl, hu⟩, hv⟩
+
+theorem memList_iff (l : List BrickDomain) (s : Str) : memList l s = true ↔ langList l s := by
+  simp [memList, memRems_iff]
 
 /-- **C06-spec-exec.** The membership test the driver evaluates on implementation outputs decides
 the declarative language. -/
